@@ -1,4 +1,4 @@
-(* C05: the three hand-copied dispatch chains (Gen/GenDispatch.v, regenerated from the loaders) apply, for every
+(* C05 (common part): the three hand-copied dispatch chains (Gen/GenDispatch.v, regenerated from the loaders) apply, for every
    key, the same Filter function with the same argument passing as the filter METHOD of that name
    (gen_method_X, regenerated from BaseStorer and the storer classes), reject every other key with ValueError,
    and do nothing for a switch that is False. *)
@@ -44,8 +44,8 @@ Proof. intros Hn Hx. apply String.eqb_neq. intros ->. contradiction. Qed.
 
 (* the key is one of the chain's literals: both sides compute *)
 Ltac known_key Hl Hst :=
-  simpl; simpl in Hl; rewrite ?Hl; simpl;
-  try (destruct (Hst _ Hl) as [? [? [? ->]]]; simpl; rewrite ?seq_get_0, ?seq_get_1; simpl);
+  cbn; cbn in Hl; rewrite ?Hl; cbn;
+  try (destruct (Hst _ Hl) as [? [? [? ->]]]; cbn; rewrite ?seq_get_0, ?seq_get_1; cbn);
   rewrite ?bind_ret; reflexivity.
 
 (* any other key: every comparison of the chain fails *)
@@ -54,10 +54,10 @@ Ltac unknown_key k keys Hk :=
   | |- context [String.eqb k ?lit] =>
       rewrite (notin_eqb k keys lit Hk) by (simpl; repeat (first [left; reflexivity | right]))
   end;
-  simpl;
+  cbn;
   repeat match goal with
   | |- context [String.eqb k ?lit] =>
-      let E := fresh "E" in destruct (String.eqb k lit) eqn:E; simpl
+      let E := fresh "E" in destruct (String.eqb k lit) eqn:E; cbn
   end;
   reflexivity.
 
@@ -81,14 +81,3 @@ Ltac tables_proof gen arity method keys :=
     repeat (destruct Hk as [Hk|Hk]; [subst k; known_key Hl Hst|]); contradiction
   | unknown_key k keys Hk ].
 
-Theorem apply_kwargs_Oscar_spec : forall d ev, NoDup (map fst d) -> spacetime_ok d ->
-  gen_apply_kwargs_Oscar ev (VDict d) = ctor_spec gen_arity_Oscar gen_method_Oscar d ev.
-Proof. tables_proof gen_apply_kwargs_Oscar gen_arity_Oscar gen_method_Oscar gen_dispatch_keys_Oscar. Qed.
-
-Theorem apply_kwargs_Jetscape_spec : forall d ev, NoDup (map fst d) -> spacetime_ok d ->
-  gen_apply_kwargs_Jetscape ev (VDict d) = ctor_spec gen_arity_Jetscape gen_method_Jetscape d ev.
-Proof. tables_proof gen_apply_kwargs_Jetscape gen_arity_Jetscape gen_method_Jetscape gen_dispatch_keys_Jetscape. Qed.
-
-Theorem apply_kwargs_PObj_spec : forall d ev, NoDup (map fst d) -> spacetime_ok d ->
-  gen_apply_kwargs_PObj ev (VDict d) = ctor_spec gen_arity_PObj gen_method_PObj d ev.
-Proof. tables_proof gen_apply_kwargs_PObj gen_arity_PObj gen_method_PObj gen_dispatch_keys_PObj. Qed.
